@@ -33,6 +33,7 @@ HostClasses == {"origin",      \* ordinary name, matches nothing
                 "deniedUpper", \* the same domain spelt in upper case by the client: the same domain, denied as well
                 "deniedWide",  \* spelt with full-width letters, which the transport maps to the denied name before it dials
                 "deniedDot",   \* the rooted form of the denied name (trailing dot): the same host
+                "deniedIdeoDot", \* the rooted form written with an ideographic full stop, which the transport maps to a dot
                 "deniedUpperRule", \* a host spelt with capitals, denied by a rule written with the same capitals
                 "denyExcl",    \* matches an include rule and a '-' exclude rule
                 "direct",      \* matches direct-domains
@@ -44,7 +45,7 @@ HostClasses == {"origin",      \* ordinary name, matches nothing
                 "denyExclCaps", "deniedCaps", "directExclCaps", "directCaps"}
                \cup LocalHosts
 IsLocal(h) == h \in LocalHosts
-IsDenied(h) == h \in {"denied", "deniedUpper", "deniedWide", "deniedDot", "deniedUpperRule", "deniedCaps"}
+IsDenied(h) == h \in {"denied", "deniedUpper", "deniedWide", "deniedDot", "deniedIdeoDot", "deniedUpperRule", "deniedCaps"}
 
 (* ---------- credentials presented to this proxy ---------- *)
 CredClasses == {"none", "exact", "wrongPass", "userPrefix", "passSuffix", "passPrefix", "caseVar", "emptyPass",
@@ -77,7 +78,9 @@ ViaLoop(v) == v \in {"ownOnly", "ownThenOther", "otherThenOwn", "ownSecondLine",
 PacResults == {"empty", "DIRECT", "PROXY_A", "HTTP_A", "HTTPS_B", "SOCKS5_C", "SOCKS_C", "SOCKS4_C",
                "FOO_A", "PROXY_noport", "PROXY_nohost", "A_then_B", "DIRECT_then_A", "blank_A_blank", "throws", "nonString",
                \* entries whose host:port cannot be parsed: no host, a signed port, a port out of range
-               "PROXY_emptyhost", "PROXY_signedport", "PROXY_portrange"}
+               "PROXY_emptyhost", "PROXY_signedport", "PROXY_portrange",
+               \* a known keyword in another case is not that keyword (PAC keywords are upper case): unknown, hence direct
+               "proxy_A", "Https_B", "socks5_C"}
 Upstreams == {[t |-> "none", v |-> "-"]} \cup {[t |-> "static", v |-> x] : x \in {"HTTP_A", "HTTPS_B", "SOCKS5_C"}}
              \cup {[t |-> "pac", v |-> r] : r \in PacResults}
 
@@ -85,7 +88,7 @@ Hop(k, p) == [k |-> k, p |-> p]
 Direct == Hop("direct", "-")
 \* pac/proxy.go: first entry; keyword table; errors
 PacHop(r) ==
-  CASE r \in {"empty", "DIRECT", "FOO_A", "DIRECT_then_A"}   -> Direct
+  CASE r \in {"empty", "DIRECT", "FOO_A", "DIRECT_then_A", "proxy_A", "Https_B", "socks5_C"}   -> Direct
     [] r \in {"PROXY_A", "HTTP_A", "A_then_B", "blank_A_blank"} -> Hop("http", "A")
     [] r = "HTTPS_B"                                       -> Hop("https", "B")
     [] r = "SOCKS5_C"                                      -> Hop("socks5", "C")
@@ -157,7 +160,7 @@ AccessOK(c, r) ==
   /\ (r.host \in {"lo6zone", "lhDot", "lhWide", "lo4Ideo", "deniedWide", "lhEmpty"} => r.kind \in {"GET", "GET10", "POST"})   \* written in a URL
   /\ (r.host \in {"lo4PlusPort", "lhServicePort"} => r.kind = "GETorigin" /\ c.lh = "deny")   \* only a Host field can say it
   /\ (r.cred # "none" => c.auth)                 \* credentials only matter with auth on
-  /\ (r.host \in {"denied", "deniedUpper", "deniedWide", "deniedDot", "deniedUpperRule", "denyExcl", "denyExclCaps", "deniedCaps"} => c.deny)
+  /\ (r.host \in {"denied", "deniedUpper", "deniedWide", "deniedDot", "deniedIdeoDot", "deniedUpperRule", "denyExcl", "denyExclCaps", "deniedCaps"} => c.deny)
   /\ (r.pos \in AfterRefused => (c.auth \/ c.deny \/ c.lh = "deny" \/ c.tf = "out"))
   /\ (r.pos = "afterOK" => c.tf # "out")
 AccessAll == {x \in AccessCfgs \X AccessReqs : AccessOK(x[1], x[2])}
@@ -226,7 +229,7 @@ Pick(n, S) == IF n = 0 THEN S ELSE RandomSubset(n, S)
 \* every (kind, host) pair is always run alone - first on its connection, credentials absent or right, no other control failing
 AccessBase == {x \in AccessAll : /\ x[2].cred \in {"none", "exact"} /\ x[2].via = "none" /\ x[2].pos = "first"
                                  /\ x[1].tf = "off" /\ x[1].up = NoUp
-                                 /\ x[1].deny = (x[2].host \in {"denied", "deniedUpper", "deniedWide", "deniedDot", "deniedUpperRule", "denyExcl", "denyExclCaps", "deniedCaps"})}
+                                 /\ x[1].deny = (x[2].host \in {"denied", "deniedUpper", "deniedWide", "deniedDot", "deniedIdeoDot", "deniedUpperRule", "denyExcl", "denyExclCaps", "deniedCaps"})}
 InitAccess == gen = "access" /\ \E x \in Pick(AccessSample, AccessAll) \cup (IF AccessSample = 0 THEN {} ELSE AccessBase) :
                   cfg = x[1] /\ req = x[2] /\ out = Decide(x[1], x[2])
 \* every (kind, host, upstream) triple is always run without connect-to rules
